@@ -43,6 +43,11 @@ type rPlan struct {
 	Template string `json:"template"`
 	Pos      int    `json:"pos"`
 	Repl     string `json:"repl"`
+	Chain    []struct {
+		Op   string `json:"op"`
+		From string `json:"from"`
+		Path string `json:"path"`
+	} `json:"chain,omitempty"`
 	// random mode
 	Random bool   `json:"random,omitempty"`
 	Raw    []byte `json:"raw,omitempty"`
@@ -52,6 +57,15 @@ type rPlan struct {
 func (p *rPlan) id() string {
 	if p.Random {
 		return fmt.Sprintf("%s:random:%s", p.Ep, digestJSON(p.Raw))
+	}
+
+	if len(p.Chain) > 0 {
+		s := p.Ep + ":alias_chain"
+		for _, c := range p.Chain {
+			s += fmt.Sprintf(":%s(%s->%s)", c.Op, c.From, c.Path)
+		}
+
+		return s
 	}
 
 	return fmt.Sprintf("%s:%s:%d:%s", p.Ep, p.Template, p.Pos, p.Repl)
@@ -543,6 +557,13 @@ func (e *robustEnv) call(ep, template string, input interface{}) (outcome string
 			return "err"
 		}
 
+		if template == "alias_chain" {
+			d := document.Document{"other": map[string]interface{}{"a": 1, "x": map[string]interface{}{"z": 1}, "arr": []interface{}{map[string]interface{}{"k": 1}, 2}}}
+			_, err := doccomposer.New().ApplyPatches(d, []patch.Patch{p})
+
+			return res(err)
+		}
+
 		worst := "ok"
 
 		for _, d := range []document.Document{doc, {}, {"publicKey": []interface{}{e.cenv.keyJSON(CEnt{1, 1})}}} {
@@ -626,6 +647,15 @@ func (e *robustEnv) concreteInput(p *rPlan) interface{} {
 		}
 
 		return string(p.Raw)
+	}
+
+	if p.Template == "alias_chain" {
+		ops := []map[string]interface{}{{"op": "add", "path": "/c", "value": map[string]interface{}{"b": map[string]interface{}{"y": 1}}}}
+		for _, c := range p.Chain {
+			ops = append(ops, map[string]interface{}{"op": c.Op, "from": c.From, "path": c.Path})
+		}
+
+		return jsonPatch(ops...)
 	}
 
 	return e.realize(corrupt(e.template(p.Template), p.Pos, p.Repl))
